@@ -14,13 +14,17 @@ BASE = os.path.join(seeded.VERIF, "refactors")
 
 def imp(ids):
     os.makedirs(BASE, exist_ok=True)
+    remap = {}
+    if ids and ids[0] == "--slots":          # --slots 1:e,2:f,3:g
+        remap = dict(x.split(":") for x in ids[1].split(","))
+        ids = ids[2:]
     for pid in ids:
         src = f"/tmp/refac/{pid}/out"
         for k in (1, 2, 3, 4, 5, 6, 7, 8, 9, "a", "b", "c", "d", "e", "f", "g", "h", "i"):
             p, d, m = (os.path.join(src, f"{n}{k}.{e}") for n, e in (("patch", "diff"), ("equiv", "py"), ("meta", "json")))
             if not (os.path.exists(p) and os.path.exists(d)):
                 continue
-            dst = os.path.join(BASE, f"{pid}-r{k}")
+            dst = os.path.join(BASE, f"{pid}-r{remap.get(str(k), k)}")
             tmp = dst + ".tmp"
             shutil.rmtree(tmp, ignore_errors=True)
             os.makedirs(tmp)
